@@ -9,3 +9,28 @@ Proof.
   intros c fuel sp sched s r sF Hw Hcl H Hne.
   exact (sched_indep_close_run_sched EUnclean sched (streaming c fuel sp) s r sF Hw Hcl H Hne).
 Qed.
+
+Lemma decoder_prefix : forall c fuel sp e k d s',
+  k < length e ->
+  resume (guard EUnclean (dec_item c fuel sp)) (mkStream e 0 true 0) = inr (Ok d, s') -> k < pos s' ->
+  decode_with c fuel sp (firstn k e) = Err EEndOfStream
+  /\ exists p' s1, resume (dec_item c fuel sp) (mkStream (firstn k e) 0 false 0) = inl (p', s1).
+Proof.
+  intros c fuel sp e k d s' Hk H Hpos. split.
+  - destruct (prefix_closed_eos_run EUnclean (dec_item c fuel sp) e k 0 d s') as [s1 E]; try assumption.
+    + discriminate.
+    + apply Nat.le_0_l.
+    + unfold decode_with, run_complete. rewrite E. reflexivity.
+  - apply (prefix_insufficient_open_run EUnclean (dec_item c fuel sp) e k 0 d s'); try assumption.
+    apply Nat.le_0_l.
+Qed.
+
+Lemma decoder_exact : forall c fuel sp e t d s',
+  resume (guard EUnclean (dec_item c fuel sp)) (mkStream e 0 true 0) = inr (Ok d, s') ->
+  decode_with c fuel sp e = Ok (d, avail s')
+  /\ decode_with c fuel sp (e ++ t) = Ok (d, avail s' ++ t).
+Proof.
+  intros c fuel sp e t d s' H.
+  destruct (exact_consumption_run EUnclean (dec_item c fuel sp) e t d s' H) as [E [s'' [E2 [_ Hav]]]].
+  unfold decode_with, run_complete. rewrite E, E2, Hav. split; reflexivity.
+Qed.
